@@ -21,6 +21,8 @@ package message
 
 // Verification contracts for property C12: every message reports the type code of the Seata v1 table.
 
+//@ pkginit magic: MagicCodeBytes[0] == 218 && MagicCodeBytes[1] == 218
+
 //@ func (GlobalBeginRequest).GetTypeCode
 //@   prop C12
 //@   ensures typecode: result == typecode(GlobalBeginRequest)
